@@ -44,6 +44,7 @@ class CGetHlogFields(Contract):
         from io_drawer.hlog import HistoryLogField
         n, fname, fsize = hlog_env(ctx)
         ctx.assume(n >= 0)
+        ctx.emit('fs', ('open_r', header_file_path))      # the table is read from the file on every call
 
         def elem(j):
             sz = fsize(zint(j))
@@ -238,6 +239,124 @@ def hlog_grammar_bounded(tier, seed):
         ob['replay'] = dict(kind='custom', reproduced=True, native=bad, input=bad)
         ob['detail'] = str(bad)[:500]
     return [ob], {}
+
+
+def hlog_history_bounded(tier, seed):
+    """the field table is read afresh on every call: decoding after the header file has been rewritten uses the new table
+    (bounded: generated tables rewritten at one path within one process)"""
+    import random, tempfile, os, time, shutil
+    from io_drawer.hlog import parse_hlog_data
+    t0 = time.time()
+    rng = random.Random(seed + 7)
+    d = tempfile.mkdtemp(prefix="pyvc_hlogh_")
+    bad = None
+    evals = 0
+    try:
+        p = os.path.join(d, "fields.h")
+        for _ in range(20 if tier == 'quick' else 200):
+            for step in range(3):
+                m = rng.randrange(1, 8)
+                fields = [("f%d_%d" % (step, j), rng.choice([1, 2])) for j in range(m)]
+                with open(p, "w") as f:
+                    f.write("static struct mex_hlog_field mex_hlog_fields[N] = {\n" +
+                            ''.join('    { %d, "%s" },\n' % (sz, nm) for nm, sz in fields) + "};\n")
+                data = bytes(rng.randrange(1, 256) for _ in range(rng.randrange(0, 20)))
+                got = list(parse_hlog_data(memoryview(data), p))
+                want = spec_hlog_native(data, p)
+                evals += 1
+                if got != want and bad is None:
+                    bad = dict(step=step, table=fields, data=data.hex(), got=got[-4:], want=want[-4:])
+            if bad:
+                break
+    finally:
+        shutil.rmtree(d, ignore_errors=True)
+    ob = dict(name="parse_hlog_data: the field table is taken from the file as it is at each call (bounded histories)", kind='B',
+              solver='bounded', status='failed' if bad else 'discharged', evaluations=evals, secs=time.time() - t0,
+              bound="sequences of 3 decodes with the header file rewritten in between")
+    if bad:
+        ob['replay'] = dict(kind='custom', reproduced=True, native=bad, input=bad)
+        ob['detail'] = str(bad)[:500]
+    return [ob], {}
+
+
+def table_history_bounded(tier, seed):
+    """C14/C15: the PTE table / trace string file is read afresh for every decode: after the file at a path has been replaced by
+    another table, decoding uses the new one (bounded: the two shipped tables swapped at one path, generated data)"""
+    import random, tempfile, os, time, shutil, re
+    import io_drawer
+    from io_drawer.ilog import parse_ilog_data
+    from io_drawer.trace import parse_trace_data
+    t0 = time.time()
+    rng = random.Random(seed + 11)
+    base = os.path.dirname(io_drawer.__file__)
+    d = tempfile.mkdtemp(prefix="pyvc_tabh_")
+    bad = None
+    evals = 0
+    try:
+        for kind, files, fn, spec in (('ilog', ("mex_pte.h", "nimitz_pte.h"), parse_ilog_data, spec_ilog_native),
+                                      ('trace', ("mexStringFile", "nimitzStringFile"), parse_trace_data, spec_trace_native)):
+            p = os.path.join(d, kind + ".tbl")
+            for rnd in range(6 if tier == 'quick' else 40):
+                src = files[rnd % 2]
+                text = open(os.path.join(base, src), errors='replace').read()
+                # every round a different table: the messages carry the round number
+                if kind == 'ilog':
+                    text = re.sub(r'(\{ *"[0-9A-Fa-f*]{8}", *")([^"\n]*)(")', lambda m: '%s%s #%d%s' % (m.group(1), m.group(2), rnd, m.group(3)), text)
+                else:
+                    text = re.sub(r'^(\d+\|\|[^\n]*?)(\|\|[^|\n]*)$', lambda m: '%s #%d%s' % (m.group(1), rnd, m.group(2)), text, flags=re.M)
+                q = os.path.join(d, "%s_%d.tbl" % (kind, rnd))
+                for path in (p, q):
+                    with open(path, 'w') as fh:
+                        fh.write(text)
+                if kind == 'ilog':
+                    data = gen_ilog_for_table(rng, q)
+                else:
+                    data = gen_trace_for_strings(rng, q)
+                got = list(fn(memoryview(data), p))
+                want = spec(data, q)
+                evals += 1
+                if got != want and bad is None:
+                    diff = [i for i, (a, b) in enumerate(zip(got, want)) if a != b][:1]
+                    bad = dict(kind=kind, round=rnd, table_now=src, data=data.hex()[:400],
+                               got=got[diff[0]] if diff else len(got), want=want[diff[0]] if diff else len(want))
+            if bad:
+                break
+    finally:
+        shutil.rmtree(d, ignore_errors=True)
+    ob = dict(name="parse_ilog_data / parse_trace_data: the table file is taken as it is at each call (bounded histories)", kind='B',
+              solver='bounded', status='failed' if bad else 'discharged', evaluations=evals, secs=time.time() - t0,
+              bound="the shipped tables with per-round messages rewritten at one path, decodes in one process")
+    if bad:
+        ob['replay'] = dict(kind='custom', reproduced=True, native=bad, input=bad)
+        ob['detail'] = str(bad)[:500]
+    return [ob], {}
+
+
+def gen_ilog_for_table(rng, table_path):
+    """ilog entries whose PTE values are taken from the table's own patterns (wildcards filled in) plus a few unknown ones"""
+    import re
+    pats = re.findall(r'\{ *"([0-9A-Fa-f*]{8})"', open(table_path, errors='replace').read())
+    out = bytearray()
+    for k in range(rng.randrange(1, 12)):
+        if pats and rng.random() < 0.8:
+            pt = rng.choice(pats)
+            pte = int(''.join(c if c in '0123456789abcdefABCDEF' else rng.choice('0123456789ABCDEF') for c in pt), 16)
+        else:
+            pte = rng.randrange(1 << 32)
+        out += rng.randrange(1, 0xFFFF).to_bytes(2, 'big') + k.to_bytes(2, 'big') + pte.to_bytes(4, 'big')
+    return bytes(out)
+
+
+def gen_trace_for_strings(rng, string_path):
+    """a well-formed trace buffer whose entries use hash values of the string file (and some unknown ones)"""
+    import re
+    hashes = [int(h) for h in re.findall(r'^(\d+)\|\|', open(string_path, errors='replace').read(), re.M)][:200]
+    ents = []
+    for k in range(rng.randrange(1, 6)):
+        hv = rng.choice(hashes) if hashes and rng.random() < 0.8 else rng.randrange(1 << 32)
+        nargs = rng.randrange(0, 3)
+        ents.append((rng.randrange(0, 60000), k, hv, rng.randrange(1, 2000), [rng.randrange(1 << 32) for _ in range(nargs)]))
+    return gen_trace_buffer_simple(ents)
 
 
 # =================================================================== C14 ILOG
@@ -572,6 +691,7 @@ class CPTETable(Contract):
     target = TABLE
 
     def model(self, it, header_file_path):
+        it.ctx.emit('fs', ('open_r', header_file_path))      # the table is read from the file whenever a PTETable is built
         o = Obj(lookup_qualname(TABLE), dict(header_file_path=header_file_path))
         it.ctx.new_ids.add(id(o))
         return o
@@ -1144,6 +1264,21 @@ def gen_trace_buffer(rng):
     return bytes(data)
 
 
+def gen_trace_buffer_simple(ents):
+    """a well-formed trace buffer from (timestamp, seq, hash, line, args) tuples: field trace entries (tag 0x4654) whose
+    data are the 32-bit arguments"""
+    body = b''
+    for (ts, seq, hv, line, args) in ents:
+        dat = b''.join(a.to_bytes(4, 'big') for a in args)
+        e = (ts % 65536).to_bytes(2, 'big') + (seq % 65536).to_bytes(2, 'big') + len(dat).to_bytes(2, 'big') + (0x4654).to_bytes(2, 'big') + \
+            hv.to_bytes(4, 'big') + line.to_bytes(4, 'big') + dat
+        e += (len(e) + 4).to_bytes(4, 'big')
+        body += e
+    size = 32 + len(body)
+    hdr = bytes([2, 0x20, 1, 0x42]) + b'IICS'.ljust(12, b'\0') + bytes(4) + size.to_bytes(4, 'big') + bytes(4) + bytes(4)
+    return hdr + body
+
+
 # ---- TraceBuffer.read: entries up to the declared size / first malformed entry
 def tr_fns(ctx):
     if not hasattr(ctx, 'tr_fns'):
@@ -1488,6 +1623,7 @@ class CTraceStringFile(Contract):
     target = TR + "TraceStringFile"
 
     def model(self, it, path):
+        it.ctx.emit('fs', ('open_r', path))      # the strings are read from the file whenever a TraceStringFile is built
         o = Obj(lookup_qualname(TR + "TraceStringFile"), dict(string_file_path=path))
         it.ctx.new_ids.add(id(o))
         return o
